@@ -6,6 +6,7 @@
 -/
 import OrasModel.Proofs.OciDelete
 import OrasModel.Proofs.OciTags
+import OrasModel.Proofs.OciCascade
 import OrasModel.Gen.Facts
 namespace Oras.Props.C09
 open Oras Oras.OciSt
@@ -155,6 +156,37 @@ theorem c09_invariants_tag (st : OciSt) (n : Node) (a : Nat) (k : RefKey)
     simp at this
     exact this hxk
   · exact List.Nodup.sublist (List.Sublist.map _ List.filter_sublist) hu
+
+/-! ### What the cascade removes -/
+
+/-- **Every node the cascade processes is justified**: it is the deletion target, or a
+    referrer (its subject is a node the cascade processed), or it has no predecessor left in
+    the graph — for every store state, target, fuel and outcome (also when the cascade stops
+    with an error), and with respect to the graph the call leaves behind. -/
+theorem c09_cascade_justified (c : OciCfg) (skipTagged skipAbsent : Bool) (st : OciSt) (n : Node) (fuel : Nat) :
+    let r := st.delete c skipTagged skipAbsent n fuel
+    ∀ d ∈ r.2.2, d = n ∨ (∃ s ∈ r.2.2, c.subject d = some s) ∨ r.1.graph.predecessors d = [] := by
+  have := deleteLoop_justified c skipTagged skipAbsent n fuel [n] [] st
+    (by intro d hd; simp only [List.mem_singleton] at hd; exact Or.inl hd) (by intro d hd; cases hd)
+  exact this
+
+/-- **Never a node a surviving node still links to** (for the nodes removed because they
+    lost their last predecessor): if the graph is exact for what is left in the store —
+    which C07 proves for every history of pushes and removals — then no stored manifest
+    links to a node the cascade removed under that rule. -/
+theorem c09_no_surviving_link (c : OciCfg) (skipTagged skipAbsent : Bool) (st : OciSt) (n : Node) (fuel : Nat)
+    (hexact : ∀ p d, p ∈ (st.delete c skipTagged skipAbsent n fuel).1.blobs → c.isMan p = true → d ∈ c.succ p →
+      p ∈ (st.delete c skipTagged skipAbsent n fuel).1.graph.predecessors d)
+    (d : Node) (hd : d ∈ (st.delete c skipTagged skipAbsent n fuel).2.2) (hne : d ≠ n)
+    (hnoref : ¬ ∃ s ∈ (st.delete c skipTagged skipAbsent n fuel).2.2, c.subject d = some s) :
+    ∀ p ∈ (st.delete c skipTagged skipAbsent n fuel).1.blobs, c.isMan p = true → d ∉ c.succ p := by
+  intro p hp hm hin
+  have hj := c09_cascade_justified c skipTagged skipAbsent st n fuel d hd
+  rcases hj with e | e | e
+  · exact hne e
+  · exact hnoref e
+  · have := hexact p d hp hm hin
+    rw [e] at this; cases this
 
 /-! ### `isTagged` is exact (finding F16) -/
 
